@@ -13,6 +13,24 @@ pub const TOKS: [&str; 5] = ["lines", "words", "chars", "unicode_words", "graphe
 type Row = (ChangeTag, Option<usize>, Option<usize>, Vec<u8>);
 
 fn collect<'a, T: DiffableStr + ?Sized + 'a>(d: &'a TextDiff<'a, 'a, 'a, T>) -> (Vec<Row>, Vec<Row>) {
+    // the other views of a change's value (as_str, to_string_lossy, value_ref) must show the same bytes
+    for (k, c) in d.iter_all_changes().enumerate() {
+        let bytes = c.value().as_bytes();
+        let as_utf8 = std::str::from_utf8(bytes).ok();
+        if c.as_str() != as_utf8 || c.to_string_lossy() != String::from_utf8_lossy(bytes) || c.value_ref().as_bytes() != bytes {
+            ACCESSOR_FAILS.with(|f| {
+                f.borrow_mut().push(format!(
+                    "change #{}: value() = {} but as_str() = {:?}, to_string_lossy() = {:?}, value_ref() = {}",
+                    k,
+                    show(bytes),
+                    c.as_str(),
+                    c.to_string_lossy(),
+                    show(c.value_ref().as_bytes())
+                ))
+            });
+            break;
+        }
+    }
     let all: Vec<Row> = d.iter_all_changes().map(|c| (c.tag(), c.old_index(), c.new_index(), c.value().as_bytes().to_vec())).collect();
     let per_op: Vec<Row> = d
         .ops()
@@ -24,6 +42,8 @@ fn collect<'a, T: DiffableStr + ?Sized + 'a>(d: &'a TextDiff<'a, 'a, 'a, T>) -> 
 }
 
 thread_local! {
+    /// disagreements between the accessors of one change, picked up by `judge`
+    static ACCESSOR_FAILS: std::cell::RefCell<Vec<String>> = std::cell::RefCell::new(Vec::new());
     /// newline_terminated override applied by run_diff (0 none, 1 true, 2 false)
     static NL_OVERRIDE: std::cell::Cell<u8> = std::cell::Cell::new(0);
 }
@@ -72,7 +92,32 @@ fn run_diff(tok: usize, alg: Algorithm, as_str: bool, a: &[u8], b: &[u8], fuel: 
     }
 }
 
+/// the same diff over a user-defined text type (character-indexed, U+2028 also ends a line)
+fn run_diff_odd(tok: usize, alg: Algorithm, ta: &str, tb: &str, fuel: Option<u64>) -> (Vec<Row>, Vec<Row>) {
+    use crate::odd_str::OddStr;
+    let mut c = TextDiff::configure();
+    c.algorithm(alg);
+    if let Some(k) = fuel {
+        c.deadline(far_deadline());
+        similar::verif_hooks::set_clock(similar::verif_hooks::Clock::Fuel(k));
+    }
+    let (a, b) = (OddStr::new(ta), OddStr::new(tb));
+    match tok {
+        0 => collect(&c.diff_lines(a, b)),
+        1 => collect(&c.diff_words(a, b)),
+        2 => collect(&c.diff_chars(a, b)),
+        #[cfg(feature = "unicode")]
+        3 => collect(&c.diff_unicode_words(a, b)),
+        #[cfg(feature = "unicode")]
+        4 => collect(&c.diff_graphemes(a, b)),
+        _ => collect(&c.diff_chars(a, b)),
+    }
+}
+
 fn judge(what: &str, rows: &[Row], a: &[u8], b: &[u8], ctx: &dyn Fn() -> String, out: &mut Local) {
+    for f in ACCESSOR_FAILS.with(|f| std::mem::take(&mut *f.borrow_mut())) {
+        out.violation("text.value_accessors", format!("{} | {}", f, ctx()));
+    }
     let mut old = Vec::new();
     let mut new = Vec::new();
     let (mut oi, mut ni) = (0usize, 0usize);
@@ -125,6 +170,25 @@ fn case(a: &[u8], b: &[u8], algs: &[Algorithm], skip_bstr_unicode: bool, out: &m
             // the LCS table is quadratic: keep it to inputs with few tokens
             if alg == Algorithm::Lcs && ((tok >= 2 && a.len() + b.len() > 400) || a.len() + b.len() > 4000) {
                 continue;
+            }
+            if valid && a.len() + b.len() <= 4000 {
+                let (ta, tb) = (crate::odd_str::oddify_same_case(std::str::from_utf8(a).unwrap()), crate::odd_str::oddify_same_case(std::str::from_utf8(b).unwrap()));
+                for fuel in [None, Some(1u64)] {
+                    let ctx = || format!("tokenizer={} alg={} type=OddStr (user-defined: character-indexed, U+2028 ends a line) deadline={:?} old={} new={}", TOKS[tok], alg_name(alg), fuel, show(ta.as_bytes()), show(tb.as_bytes()));
+                    out.eval();
+                    let r = guard(|| run_diff_odd(tok, alg, &ta, &tb, fuel));
+                    similar::verif_hooks::set_clock(similar::verif_hooks::Clock::Off);
+                    match r {
+                        Err(p) => out.violation("panic", format!("text diff panicked: {} | {}", p, ctx())),
+                        Ok((all, per_op)) => {
+                            out.count("user_defined_text_type_diffs");
+                            judge("iter_all_changes", &all, ta.as_bytes(), tb.as_bytes(), &ctx, out);
+                            if per_op != all {
+                                out.violation("text.per_op_differs", format!("per-op iter_changes differs from iter_all_changes | {}", ctx()));
+                            }
+                        }
+                    }
+                }
             }
             for as_str in [false, true] {
                 if as_str && !valid {
